@@ -51,9 +51,10 @@ From Verif Require Import Gov.AList Gov.Tally Gov.Inv Gov.Inv2.
 
 (** GovInv holds after every history of governance transactions (accepted, rejected, or
     executed on a discarded block state), block boundaries, restarts and plain transfers to
-    aergo.system; [received] is the sum of those transfers (F19: the balance clause needs it). *)
+    aergo.system; [received] is the sum of those transfers (F19: the balance clause needs it).
+    Every step carries the hardfork version of its block, so histories may cross fork heights. *)
 Theorem C15_GovInv_all_histories : forall c hs g donated g' received,
-  GovInv donated (g_d g) -> Forall hop_wf hs -> hrun c g hs = (g', received) ->
+  GovInv donated (g_d g) -> Forall (fun vh => hop_wf (snd vh)) hs -> hrun c g hs = (g', received) ->
   GovInv (donated + received) (g_d g').
 Proof. exact GovInv_all_histories. Qed.
 Print Assumptions C15_GovInv_all_histories.
